@@ -16,6 +16,9 @@ rm -f $d/$pkg/zz_equiv_test.go
 echo "build: ${build:-ok} | suite+equiv: ${suite:-all ok}"
 mkdir -p /tmp/gmsa-mut-verif; cp /verif/known_findings.json /tmp/gmsa-mut-verif/
 for p in "$@"; do
-  /verif/bin/gmsa check $p --repo $d --verif /tmp/gmsa-mut-verif --no-controls 2>&1 | tee /tmp/refcheck.last | grep -E "FAILED|UNDECIDED|^gmsa:" | awk '/^gmsa:/{print; next} {n++; if (n<=3) print substr($0,1,2600)}'
+  timeout 120 /verif/bin/gmsa check $p --repo $d --verif /tmp/gmsa-mut-verif --no-controls > /tmp/refcheck.last 2>&1
+  rc=$?
+  [ $rc -ge 124 ] && echo "  TIMEOUT/KILLED property=$p rc=$rc (the analyser did not finish in 120 s)"
+  grep -E "FAILED|UNDECIDED|^gmsa:" /tmp/refcheck.last | awk '/^gmsa:/{print; next} {n++; if (n<=3) print substr($0,1,2600)}'
 done
 rm -rf $d /tmp/gmsa-mut-verif/evidence /tmp/gmsa-mut-verif/replay
